@@ -406,7 +406,8 @@ pub fn c19() -> i32 {
         let cimg = crate::images::initial_images(&g, &["compressed"]).remove(0);
         let (cs, bs) = (g.cs(), g.bs());
         let w = |off: u64, len: u64, tag: u32| Op::Write { off, len: len as usize, tag };
-        let far = (g.vsize() / cs - 4) * cs;
+        // fresh guest clusters of the L2 table that exists already: the next allocation is a data cluster
+        let far = 5 * cs;
         let stale_hists: Vec<Vec<Op>> = vec![
             vec![w(0, bs, 1), w(cs, bs, 2), w(2 * cs, bs, 3), w(3 * cs, bs, 4), w(far + bs, bs, 5), w(far + cs, bs, 6), w(far + 2 * cs + bs, bs, 7)],
             vec![w(0, cs, 1), w(cs, cs, 2), w(2 * cs, cs, 3), w(3 * cs, cs, 4), Op::Flush, w(far, bs, 5), w(far + cs + bs, bs, 6), Op::Discard { off: far, len: cs }, w(far + 2 * cs + bs, bs, 7)],
